@@ -3,7 +3,7 @@
 // Oracle from the property statement: the lines of a file are its pieces between line feeds (a CR before the LF belongs
 // to the line end, a final piece without LF is a line, an empty final piece is not); files in the given order.
 // Grid: every file of up to 2 lines over the pool below with LF / CRLF / no final terminator (109 contents), all pairs of 21
-// representative contents, all triples of 6; statements: SELECT input, SELECT COUNT(*), a join whose joined file is the grid file.
+// representative contents, all triples of 6; every 4th content through a pipe (an input without a size); statements: SELECT input, SELECT COUNT(*), a join whose joined file is the grid file.
 include!("verif_grid_common.rs");
 
 const DEF: &str = "CREATE TABLE t(line = '(.*)', line[1] => x TEXT);";
@@ -138,5 +138,24 @@ fn verif_grid() {
             }
         });
     }
+    // inputs that are not regular files: a pipe (what --stdin is) reports no size; its lines are read like those of a file
+    for (i, c) in singles.iter().enumerate().filter(|(i, _)| i % 4 == 0) {
+        let c1 = c.clone();
+        g.case(&format!("pipe-{}", i), move || {
+            let expected = oracle_lines(&c1).into_iter().map(|l| format!("'{}'", String::from_utf8(l).unwrap())).collect::<Vec<_>>();
+            let c2 = c1.clone();
+            match run_handles(DEF, "SELECT input FROM t", move || vec![pipe_with(&c2)], Default::default()) {
+                Outcome::Lines(lines, total) => if lines == expected && total == expected.len() as u64 { Ok(()) } else { Err(format!("a pipe holding {:?}: SELECT input printed {:?} ({} lines counted), the lines are {:?}", show(&c1), lines, total, expected)) },
+                other => Err(format!("a pipe holding {:?}: {:?}", show(&c1), other)),
+            }
+        });
+    }
+    g.case("file-pipe-file", || {
+        let (a, c) = (write_temp("in", b"a\nb\n"), write_temp("in", b"f\n"));
+        let (a2, c2) = (a.clone(), c.clone());
+        let r = run_handles(DEF, "SELECT COUNT(*) AS n FROM t", move || vec![std::fs::File::open(&a2).unwrap(), pipe_with(b"c\nd\ne"), std::fs::File::open(&c2).unwrap()], Default::default());
+        let _ = (std::fs::remove_file(a), std::fs::remove_file(c));
+        match r { Outcome::Lines(lines, 6) if lines == vec!["n: 6".to_owned()] => Ok(()), other => Err(format!("a file of 2 lines, a pipe of 3 and a file of 1: COUNT(*) gave {:?}", other)) }
+    });
     g.done();
 }
